@@ -446,7 +446,12 @@ func (fc *funcContext) translateExpr(expr ast.Expr) *expression {
 					return fc.fixNumber(fc.formatParenExpr("%e >> $min(%s, 31)", e.X, count), basic)
 				}
 				y := fc.newLocalVariable("y")
-				return fc.fixNumber(fc.formatExpr("(%s = %s, %s < 32 ? (%e %s %s) : 0)", y, count, y, e.X, op, y), basic)
+				if !analysis.HasSideEffect(e.X, fc.pkgCtx.Info.Info) {
+					return fc.fixNumber(fc.formatExpr("(%s = %s, %s < 32 ? (%e %s %s) : 0)", y, count, y, e.X, op, y), basic)
+				}
+				// The operand is evaluated before the count, whatever the count is.
+				x := fc.newLocalVariable("x")
+				return fc.fixNumber(fc.formatExpr("(%s = %e, %s = %s, %s < 32 ? (%s %s %s) : 0)", x, e.X, y, count, y, x, op, y), basic)
 			case token.AND, token.OR:
 				if isUnsigned(basic) {
 					return fc.formatParenExpr("(%e %t %e) >>> 0", e.X, e.Op, e.Y)
